@@ -78,8 +78,16 @@ func (runInfo *runInfoStruct) invokeLetMemberExpr(expr *ast.MemberExpr) {
 			runInfo.rv = nilValue
 			return
 		}
-		var reachable bool
-		runInfo.rv, reachable = fieldByIndex(runInfo.rv, field.Index)
+		var reachable, storeBack bool
+		structValue := runInfo.rv
+		if !structValue.CanAddr() && structValue.CanInterface() {
+			// a struct value that sits in an interface slot (a list element, a map entry, a variable bound to
+			// the result of a Go function) cannot be changed in place: change a copy and assign that where the value came from
+			structValue = reflect.New(structValue.Type()).Elem()
+			structValue.Set(runInfo.rv)
+			storeBack = true
+		}
+		runInfo.rv, reachable = fieldByIndex(structValue, field.Index)
 		if !reachable {
 			// the field is promoted from an embedded pointer that is nil
 			runInfo.err = newStringError(expr, "member '"+expr.Name+"' is a field of an embedded pointer that is nil")
@@ -103,6 +111,14 @@ func (runInfo *runInfoStruct) invokeLetMemberExpr(expr *ast.MemberExpr) {
 		}
 
 		runInfo.rv.Set(value)
+		if storeBack {
+			runInfo.rv = structValue
+			runInfo.expr = expr.Expr
+			runInfo.invokeLetExpr()
+			if runInfo.err == nil {
+				runInfo.rv = value
+			}
+		}
 		return
 
 	// Map
